@@ -37,6 +37,14 @@ Normalisations the oracle applies (and nothing else):
     about: "", None or the readers' constant placeholder "attachment" are accepted, an invented name is not.  Names are
     written in all three spellings in use: plain / RFC 2231 (what the stdlib writes), an RFC 2047 encoded word inside the
     quoted filename parameter, and an encoded word in the Content-Type name parameter only - the decoded name is the name;
+  * attachments are found wherever they sit in the MIME tree: a fifth of the messages with attachments have their content
+    below another container than mixed / related - alternative(plain, mixed(html, attachments)) as Apple Mail sends it,
+    multipart/signed (with its smime.p7s, an attachment itself), multipart/report, multipart/parallel and an unknown
+    multipart subtype (RFC 2046: read as mixed);
+  * mailbox quoting: the mailboxes are written in three styles, a third each - mboxrd (every ^>*From(blank) line gets a
+    ">"), mboxo (only lines starting with "From "; a ">From " line of the sender's own is stored as it is) and
+    look-alikes-only.  A body / 7bit-8bit-QP attachment may come back as sent or in the form *this* mailbox stored; a
+    reader that takes a ">" off a line whose ">" was the sender's (mboxo, look-alikes-only) returns neither;
   * supported attachments == the attached file on its own: the file on its own is routed by its *name* (README: "file
     extensions (primary) ... MIME types (fallback)"), so an attachment whose declared type is a supported one but not
     the canonical type of its extension (.csv as application/vnd.ms-excel, .docx as application/zip, .html as
@@ -744,6 +752,8 @@ def main(run, only_cases=None):
     run.require("unescaped_from_lines_with_a_year_inside", c.get("unescaped_from_lines_with_a_year_inside", 0), run.n(15, 200))
     run.require("messages_with_rfc2047_attachment_names", c.get("messages_with_name_rfc2047_attachment_names", 0), run.n(80, 1200))
     run.require("messages_with_rfc2047_content_type_name_only", c.get("messages_with_name_rfc2047_name_attachment_names", 0), run.n(40, 600))
+    run.require("messages_with_attachments_below_another_container", c.get("messages_with_attachments_below_another_container", 0), run.n(60, 900))
+    run.require("container_kinds_seen", len([k for k in c if k.startswith("container_")]), 5)
     run.require("nested_message_variants_seen", len([k for k in c if k.startswith("nested_variant_")]), len(NESTED_VARIANTS))
     run.require("attachments_with_other_type_than_their_name_says", c.get("attachments_with_other_type_than_their_name_says", 0), run.n(100, 1500))
     run.require("type_name_mismatch_kinds_seen", len([k for k in c if k.startswith("mismatch_")]), len(G.MISMATCHED))
@@ -917,6 +927,9 @@ def _count_message(run, spec, truth, r):
         if f.startswith("att:mismatch:"):
             run.count("attachments_with_other_type_than_their_name_says")
             run.count("mismatch_" + f[13:])
+        elif f.startswith("struct:container:"):
+            run.count("messages_with_attachments_below_another_container")
+            run.count("container_" + f[17:])
         elif f.startswith("att:name-rfc2047"):
             run.count("messages_with_" + f[4:].replace("-", "_") + "_attachment_names")
         elif f.startswith("att:encrypted:"):
